@@ -545,8 +545,8 @@ func c19Cases(args []string) int {
 	rep := NewReport("c19-cases")
 	dir, _ := ioutil.TempDir("", "verifbookc")
 	defer os.RemoveAll(dir)
-	sb.WriteString("(* GENERATED by verifh c19-cases *)\nFrom Coq Require Import NArith List Bool.\nFrom FG Require Import BookModel CacheModel CasesBook.\nImport ListNotations.\nOpen Scope N_scope.\n")
-	sb.WriteString("Definition cases : list (N * list (list (N*N*N)) * list (N*N*list (N*N))) := [\n")
+	sb.WriteString("(* GENERATED by verifh c19-cases *)\nFrom Coq Require Import NArith List Bool String.\nFrom FG Require Import BookModel CacheModel CasesBook.\nImport ListNotations.\nOpen Scope N_scope.\n")
+	sb.WriteString("Definition cases : list (N * list (list (N*N*N)) * list (N*N*list (N*N)) * list (list String.string) * list String.string) := [\n")
 	for c := 0; c < n; c++ {
 		games := genBookGames(rng, 3+rng.Intn(10))
 		formats := []struct {
@@ -599,9 +599,46 @@ func c19Cases(args []string) int {
 			}
 			sb.WriteString("])")
 		}
+		// the coordinate tokens of every game (an illegal tail included) and the positions visited while
+		// replaying its legal part, start position included: BookLegal.book_visited_case_ok walks the tokens
+		// with the model and checks that no two of these positions collide on their zobrist key
+		sb.WriteString("], [")
+		for gi, g := range games {
+			if gi > 0 {
+				sb.WriteString("; ")
+			}
+			sb.WriteString("[")
+			for ti, t := range g.uci {
+				if ti > 0 {
+					sb.WriteString(";")
+				}
+				fmt.Fprintf(&sb, "\"%s\"%%string", strings.ToLower(t))
+			}
+			sb.WriteString("]")
+		}
+		sb.WriteString("], [")
+		nvis := 0
+		keyOf := map[string]uint64{}
+		for _, g := range games {
+			p := position.NewPosition()
+			for mi := 0; mi <= len(g.moves); mi++ {
+				if nvis > 0 {
+					sb.WriteString(";")
+				}
+				fmt.Fprintf(&sb, "\"%s\"%%string", p.StringFen())
+				nvis++
+				f := strings.Fields(p.StringFen())
+				keyOf[strings.Join(f[:4], " ")] = uint64(p.ZobristKey())
+				if mi < len(g.moves) {
+					p.DoMove(g.moves[mi])
+				}
+			}
+		}
 		sb.WriteString("])")
 		rep.Cases++
 		rep.Stats["games"] += len(games)
+		rep.Stats["visited_positions"] += nvis
+		rep.Stats["distinct_visited_positions"] += len(keyOf)
 	}
 	sb.WriteString("].\nDefinition M := Eval vm_compute in (book_mismatches cases).\nPrint M.\n")
 	// cache cases: (kind, nlines, useCache, recreate, prior, observed)
